@@ -45,6 +45,9 @@ if same:
     old = agent_meta
     meta["summary"], meta["needs_to_manifest"], meta["files"] = old.get("summary"), old.get("needs_to_manifest"), old.get("files")
     meta["first_evaluation"] = old.get("first_evaluation") or {"checks_run": old.get("checks_run"), "caught_by": old.get("caught_by")}
+    for keep_key in ("expect_caught_by", "expect_uncaught", "status", "note"):
+        if keep_key in old:
+            meta[keep_key] = old[keep_key]
     merged = dict(old.get("checks_run") or {})
     merged.update(meta["checks_run"])
     meta["checks_run"] = merged
